@@ -9,6 +9,8 @@
    * A decoded message is (mmsi, for every such attribute: MAbsent = `hasattr` is false, MPresent v = `getattr`
      returned v, where v may be None).  The FIELDS loops also visit `mmsi` (always present, re-assigns the same value)
      and `last_updated` (no message class has such an attribute; the harness checks that by reflection).
+   * `ttl_in_seconds` and `stream_is_ordered` are public attributes: a history may assign a new TTL at any time
+     (`OpSetTtl`) and may switch an ordered tracker to unordered (`OpUnordered`); every method reads them afresh.
    * Time is an explicit argument `now` of every operation that reads the clock (`time.time()` is called by
      `AISTrack.last_updated`'s default factory and by `cleanup`).  Timestamps and the TTL are integers in one common
      unit (the harness uses quarter seconds, on which binary64 arithmetic is exact).
@@ -138,6 +140,11 @@ Section Tracker.
     mkTracker (t_tracks st) (t_ttl st) (t_ordered st) o (t_broker st).
   Definition with_broker (st : trk_tracker) (b : trk_broker) : trk_tracker :=
     mkTracker (t_tracks st) (t_ttl st) (t_ordered st) (t_oldest st) b.
+  (* assignments to the public attributes `ttl_in_seconds` / `stream_is_ordered` *)
+  Definition with_ttl (st : trk_tracker) (ttl : option Z) : trk_tracker :=
+    mkTracker (t_tracks st) ttl (t_ordered st) (t_oldest st) (t_broker st).
+  Definition with_ordered (st : trk_tracker) (o : bool) : trk_tracker :=
+    mkTracker (t_tracks st) (t_ttl st) o (t_oldest st) (t_broker st).
 
   (* poplast: key, latest = dictionary.popitem(); dictionary[key] = latest; return latest *)
   Definition trk_poplast (d : idict trk_track) : option (trk_track * idict trk_track) :=
@@ -312,7 +319,11 @@ Section Tracker.
   | OpCleanup (now : Z)
   | OpPop (mmsi : Z)
   | OpAttach (ev : trk_event) (cb : Z)       (* register_callback *)
-  | OpDetach (ev : trk_event) (cb : Z).      (* remove_callback *)
+  | OpDetach (ev : trk_event) (cb : Z)       (* remove_callback *)
+  | OpSetTtl (ttl : option Z)                (* tracker.ttl_in_seconds = ttl   (a public attribute; cleanup() reads it afresh) *)
+  | OpUnordered.                             (* tracker.stream_is_ordered = False   (only this direction: a table that was kept
+                                                sorted is a legal unordered table; switching an unordered tracker to ordered
+                                                would assert an order nobody enforced and is outside the model) *)
 
   Record trk_result := mkResult {
     r_state : trk_tracker;
@@ -329,6 +340,8 @@ Section Tracker.
       let '(st1, calls, _) := trk_pop_track st mmsi in mkResult st1 calls None
     | OpAttach ev cb => mkResult (with_broker st (brk_attach (t_broker st) ev cb)) [] None
     | OpDetach ev cb => mkResult (with_broker st (brk_detach (t_broker st) ev cb)) [] None
+    | OpSetTtl ttl => mkResult (with_ttl st ttl) [] None
+    | OpUnordered => mkResult (with_ordered st false) [] None
     end.
 
   (* run a history; returns the final state and, per operation, its result *)
@@ -530,6 +543,8 @@ Section TrackerCb.
     | OpPop mmsi => trkc_pop_track env st mmsi
     | OpAttach ev cb => mkCResult (with_broker st (brk_attach (t_broker st) ev cb)) [] [] None None
     | OpDetach ev cb => mkCResult (with_broker st (brk_detach (t_broker st) ev cb)) [] [] None None
+    | OpSetTtl ttl => mkCResult (with_ttl st ttl) [] [] None None
+    | OpUnordered => mkCResult (with_ordered st false) [] [] None None
     end.
 
   (* a history: every operation with the behaviour of the callbacks (and of the set iteration) during it *)
